@@ -396,7 +396,7 @@ func (ck *checker) exhaustive() {
 		"contents_per_u":    81,
 		"sampled_3batch":    len(tasks),
 		"not_exhaustive":    "3-batch histories are sampled; key universes are a fixed adversarial list with random base keys",
-		"checked_per_batch": "oracles (a)-(f), every earlier root",
+		"checked_per_batch": "root oracles (b),(e),(f) after every batch; read oracles (a),(c),(d incl. every earlier root) after the last batch of each history and, for the state after batch 1 alone, once per first batch (history with an empty second batch)",
 	})
 }
 
